@@ -1,12 +1,56 @@
 #!/bin/bash
-# full re-confirmation (patch applies, baseline suite, demo, checks) of every seeded change against the current tree
+# full re-confirmation (patch applies, baseline suite, demo, checks) of every seeded change against the current tree;
+# two at a time (the baseline suite is single-process, the checks use all cores)
 cd /verif
-declare -A PROPS=( [C01-clone-skips-shallow-immutables]=C17,C01 [C02-same-adapter-other-class]=C02 [C03-replace-range-from-ast-byte-columns]=C03,C02 [C04-review-unasked-trim-removes-externals]=C04,C13 [C05-in-members-keyed-by-hash]=C05,C01 [C06-bound-compared-with-recorded-extreme]=C06 [C07-skip-after-bad-snapshot-hides-failure]=C07 [C08-in-trim-by-tokens-fix-by-equality]=C08,C05 [C09-in-list-update-swallows-fix-trim]=C09,C05 [C10-dict-value-node-by-observed-order]=C10,C11,C02 [C11-dict-same-keys-positional-nodes]=C11,C10,C02 [C12-docstring-workaround-narrowed]=C12,C01 [C13-unused-externals-bucketed-by-hash-length]=C13 [C14-key-by-filename-name-offset]=C14 [C15-persist-after-write]=C15 [C16-repr-patch-flag-stuck-after-exception]=C16 [C17-hashable-tuples-not-copied]=C17 [C18-remove-while-iterating-inner-replacements]=C18 [C19-plugin-skips-category-without-new-changeset]=C19,C04 [C20-nearest-pyproject-without-black-section]=C20 )
-for id in "${!PROPS[@]}"; do
-  python3 tools/seeded.py verify /verif/seeded/$id $id --props ${PROPS[$id]} > /dev/shm/reverify-$id.log 2>&1
+one() {
+  id=$1; props=$2
+  python3 tools/seeded.py verify /verif/seeded/$id $id --props $props > /dev/shm/reverify-$id.log 2>&1
   python3 - "$id" <<'PY'
 import json,sys
 m=json.load(open(f"/verif/seeded/{sys.argv[1]}/meta.json"))["confirmation"]
 print(sys.argv[1], "applies", m.get("patch_applies"), "demo", m.get("demo_discriminates"), "baseline_missing", m.get("baseline_missing_with_patch"), {k:v["exit"] for k,v in m.get("checks_against_patched_copy",{}).items()})
 PY
-done
+}
+export -f one
+xargs -P 2 -L 1 bash -c 'one $0 $1' <<'LIST'
+C01-clone-skips-shallow-immutables C17,C01
+C01-nested-import-counts-as-present C01,C03
+C02-replace-range-from-ast-columns C02,C03
+C02-same-adapter-other-class C02
+C03-replace-range-from-ast-byte-columns C03,C02
+C03-rewrite-in-locale-encoding C03
+C04-bound-trim-tested-before-fix C04,C05
+C04-review-unasked-trim-removes-externals C04,C13
+C05-clone-immutable-fast-path-tuples C17,C05
+C05-in-members-keyed-by-hash C05,C01
+C06-bound-compared-with-recorded-extreme C06
+C06-key-by-filename-name-offset C06,C14
+C07-eq-result-cached-per-snapshot-object C07,C06
+C07-skip-after-bad-snapshot-hides-failure C07
+C08-generated-code-cached-by-equal-value C08
+C08-in-trim-by-tokens-fix-by-equality C08,C05
+C09-in-list-update-swallows-fix-trim C09,C05
+C09-nested-edit-containment-inverted C09
+C10-dict-value-node-by-observed-order C10,C11,C02
+C10-star-kwargs-check-after-changes C10
+C11-call-arguments-always-value-adapter C11,C10
+C11-dict-same-keys-positional-nodes C11,C10,C02
+C12-docstring-workaround-narrowed C12,C01
+C12-unescape-via-unicode-escape C12,C01
+C13-prune-new-files-only-when-active C13
+C13-unused-externals-bucketed-by-hash-length C13
+C14-key-by-filename-name-offset C14
+C14-re-eval-zip-truncates-length-change C14
+C15-failed-format-command-output-used C15
+C15-persist-after-write C15
+C16-docstring-workaround-only-for-blanks C16,C12
+C16-repr-patch-flag-stuck-after-exception C16
+C17-bound-replacement-stores-live-object C17
+C17-hashable-tuples-not-copied C17
+C18-bound-recheck-catches-only-typeerror C18
+C18-remove-while-iterating-inner-replacements C18
+C19-plugin-skips-category-without-new-changeset C19,C04
+C19-run-inline-only-test-prefix-files C19
+C20-black-mode-pins-target-version C20
+C20-nearest-pyproject-without-black-section C20
+LIST
